@@ -41,7 +41,7 @@ func (f *faultGen) regionBody(region string, depth int) *Block {
 	n := 2 + g.R.Intn(5)
 	for i := 0; i < n && f.budget > 0; i++ {
 		f.budget--
-		k := g.R.Intn(16)
+		k := g.R.Intn(17)
 		g.cover("faultstmt:%d", k)
 		switch k {
 		case 0, 1, 2:
@@ -99,6 +99,11 @@ func (f *faultGen) regionBody(region string, depth int) *Block {
 			} else {
 				b.Stmts = append(b.Stmts, f.step(region))
 			}
+		case 16:
+			// a function reached through the key "" (its traceback name is empty)
+			t := g.fresh("et")
+			b.Stmts = append(b.Stmts, Local1(t, &ETable{Items: []TItem{{Kind: TKey, Key: Str(""), Val: Fn(nil, false, Blk(f.step(region), f.step(region)))}}}),
+				&SCall{Call: Call(Idx(N(t), Str("")))})
 		case 13:
 			// table and string work between steps (pure)
 			t := g.fresh("wt")
